@@ -141,6 +141,16 @@ class NumArr:
             return NumArr([[r.data[j] for r in self.data] for j in range(len(self.data[0]))])
         return self
 
+    def swapaxes(self, i, j):
+        n = self.ndim
+        if not all(isinstance(a, int) and not isinstance(a, bool) and -n <= a < n for a in (i, j)):
+            raise ValueError("axis out of bounds for array of dimension %d" % n)
+        if i % n == j % n:
+            return self
+        if n == 2:
+            return self.T
+        raise Undecided("swapaxes of a %d-d array" % n)
+
     def __repr__(self):
         return "NumArr(%r)" % (self.tolist(),)
 
@@ -609,6 +619,7 @@ def num_summaries():
         "np.column_stack": lambda t: NumArr([list(c) for c in t]).T, "np.vstack": lambda t: NumArr([list(r) for r in t]),
         "np.stack": lambda t, axis=0: (Stack3(list(t), axis) if (len(t) and isinstance(t[0], NumArr) and t[0].ndim == 2) else (NumArr([list(r) for r in t]) if axis == 0 else NumArr([list(c) for c in t]).T)),
         "np.transpose": lambda a: (a if isinstance(a, NumArr) else NumArr(a)).T,
+        "np.swapaxes": lambda a, i, j: (a if isinstance(a, NumArr) else NumArr(a)).swapaxes(i, j),
         "np.sum": lambda a, axis=None: (a if isinstance(a, NumArr) else NumArr(a)).sum(axis), "np.abs": lambda a: abs(a), "np.absolute": lambda a: abs(a),
         "np.min": lambda a: NumArr(a).min() if _is_seq(a) else a, "np.max": lambda a: NumArr(a).max() if _is_seq(a) else a,
         "np.amin": lambda a: NumArr(a).min(), "np.amax": lambda a: NumArr(a).max(),
